@@ -321,6 +321,30 @@ func RunProperty(p *Property, env *Env, known *Known, corpus []Case) int {
 	// confirmation (DESIGN 3.7): shrink, re-run from a fresh sandbox, then match against listed findings
 	sort.SliceStable(violated, func(i, j int) bool { return violated[i].v.Site < violated[j].v.Site })
 	seenSite := map[string]int{}
+	// an unlisted violation is confirmed once more on binaries that are built afresh from the working tree (into another
+	// directory): whatever went wrong with a build of this process - it is the one thing all cases of a run share -
+	// must not be reported as a finding about the code
+	var fresh *Env
+	freshEnv := func() *Env {
+		if fresh != nil {
+			return fresh
+		}
+		f := *env
+		f.shared = &envShared{}
+		f.BuildDir = env.BuildDir + "-confirm"
+		_ = os.MkdirAll(f.BuildDir, 0o755)
+		opts := sut.BuildOpts{}
+		if env.HooksOn {
+			opts.Tags = "verif"
+		}
+		if bin, err := f.Variant(opts); err == nil {
+			f.Bin = bin
+			fresh = &f
+		} else {
+			fresh = env
+		}
+		return fresh
+	}
 	for _, pv := range violated {
 		c, v := pv.c, pv.v
 		if seenSite[v.Site+"|"+v.Finding] >= 3 {
@@ -343,6 +367,14 @@ func RunProperty(p *Property, env *Env, known *Known, corpus []Case) int {
 				continue
 			}
 			v = v2
+		}
+		if v.Finding == "" && !v.SelfConfirmed {
+			if v3 := safeCheck(p, freshEnv(), c); v3.Status != Violated {
+				r.Inconclusive = append(r.Inconclusive, "not reproduced on freshly built binaries: "+v.Msg)
+				r.Counts["inconclusive"]++
+				r.Counts["not_reproduced_on_fresh_build"]++
+				continue
+			}
 		}
 		seenSite[v.Site+"|"+v.Finding]++
 		if v.Finding != "" {
